@@ -266,29 +266,49 @@ class Model(object):
 
     def __init__(self):
         self.confs = {}
+        self.cfg = {}
         self.susp = {}
         self.flags = set()
 
-    def configure(self, name, raw, now_us):
-        """The monitor node was written / created with content `raw`."""
-        try:
-            data = json.loads(raw.decode())
-            count = data['count']
-            assert isinstance(count, int)
-        except Exception:  # pylint: disable=broad-except
-            return                      # invalid: previous conf (if any) stays
+    def admin_update(self, name, count, policy):
+        """What the administrator asked for: update_appmonitor(count, policy)
+        with None meaning 'leave as configured'.  Returns True if this was a
+        count-only update of a monitor configured lifo."""
+        cfg = self.cfg.setdefault(name, {})
+        count_only_lifo = (count is not None and policy is None and
+                           cfg.get('policy') == 'lifo')
+        if count is not None:
+            cfg['count'] = count
+        if policy is not None:
+            cfg['policy'] = policy
+        return count_only_lifo
+
+    def configure(self, name, written, now_us):
+        """Apply the configured count/policy; `written` says whether the
+        monitor node's content changed (that is what starts a new budget)."""
+        cfg = self.cfg.get(name, {})
+        if 'count' not in cfg:
+            return                      # no count yet: not a valid monitor
+        conf = self.confs.get(name)
+        if conf is not None and not written:
+            conf['count'] = cfg['count']
+            conf['policy'] = cfg.get('policy')
+            return
+        count = cfg['count']
         self.confs[name] = {
             'count': count,
-            'policy': data.get('policy'),
+            'policy': cfg.get('policy'),
             'tokens': Fraction(2 * count),
             'last_us': now_us,
             'start_us': now_us,
             'created': 0,
             'dry': False,
+            'count_only_lifo': False,
         }
 
     def remove(self, name):
         self.confs.pop(name, None)
+        self.cfg.pop(name, None)
 
     def begin(self, now_us):
         """Start of an evaluation: who is active and with how many tokens."""
@@ -365,9 +385,17 @@ class Run(object):
             before = self.zk.nodes.get(path, [None, None])[1]
             masterapi.update_appmonitor(self.zk, name, count, policy)
             after = self.zk.nodes[path][1]
-            if after != before:
-                self.model.configure(name, self.zk.nodes[path][0],
-                                     self.clock.us)
+            # the model follows the configuration as issued, not what ended
+            # up in the node; only "was the node rewritten" is observed
+            count_only_lifo = self.model.admin_update(name, count, policy)
+            self.model.configure(name, after != before, self.clock.us)
+            conf = self.model.confs.get(name)
+            if conf is not None:
+                if count_only_lifo:
+                    self.stats.count('mon:count-only-on-lifo')
+                    conf['count_only_lifo'] = True
+                elif policy is not None:
+                    conf['count_only_lifo'] = False
         elif kind == 'delmon':
             masterapi.delete_appmonitor(self.zk, oper[1])
             self.model.remove(oper[1])
@@ -582,6 +610,12 @@ class Run(object):
                            else want[1], live))
                 if cur > surplus and policy == 'lifo':
                     self.stats.count('delete:lifo-distinguishing')
+                    if conf.get('count_only_lifo'):
+                        # a count-only update of a lifo monitor, then a
+                        # scale-down whose ends differ
+                        self.stats.count(
+                            'delete:lifo-after-count-only-update')
+                        conf['count_only_lifo'] = False
                 elif cur > surplus:
                     self.stats.count('delete:fifo-distinguishing')
                 model.flags.add('deleted')
@@ -661,8 +695,8 @@ class Run(object):
 # --------------------------------------------------------------------------
 
 APPS = ['proid.web', 'proid.web-x', 'proid.web.x', 'other.db']
-FAILS = ['notfound', 'badrequest', 'validation', 'error', 'toomany',
-         'conflict']
+FAILS = ['notfound', 'notfound', 'badrequest', 'badrequest', 'validation',
+         'validation', 'error', 'toomany', 'conflict']
 POLICIES = [None, None, 'fifo', 'lifo', 'lifo', 'random']
 DTS = [0, 0, 0, 0, 1, 5, 59, 298, 299, 300, 301, 600, 899, 1799, 1800, 1801,
        3599, 3600, 7200, 86400]
@@ -706,6 +740,10 @@ def cases(draw, max_rounds=30):
                             draw(st.sampled_from(['fifo', 'lifo']))])
             elif roll < 69:
                 ops.append(['delmon', name])
+            elif roll < 75:
+                # count-only update (what cron / multi-cell monitor send),
+                # aimed low so that a scale-down follows
+                ops.append(['mon', name, draw(st.integers(0, 3)), None])
             if draw(st.integers(0, 6)) == 0:
                 api[name] = draw(st.sampled_from(FAILS))
         if draw(st.integers(0, 9)) == 0:
